@@ -9,7 +9,7 @@
 EXTENDS PyScope, Json
 CONSTANTS MaxScopes, MaxDepth, MaxEvStmt, MaxEvExpr, WithLocset
 
-G0 == [prog |-> << [kind |-> "module", parent |-> 0, par |-> [n \in Names |-> NoPar], iter |-> "-", tgt |-> "-", ev |-> <<>>] >>,
+G0 == [prog |-> << [kind |-> "module", parent |-> 0, par |-> TLCEval([n \in Names |-> NoPar]), iter |-> "-", tgt |-> "-", ev |-> <<>>] >>,
        stack |-> <<1>>]
 Cur(g) == g.stack[Len(g.stack)]
 CurKind(g) == g.prog[Cur(g)].kind
@@ -23,7 +23,7 @@ ChildKinds(k) == IF StmtKind(k) THEN <<"def", "lambda", "class", "comp">> ELSE <
 ParModes == <<NoPar, [k |-> "arg", from |-> "-"], [k |-> "dup", from |-> "-"]>> \o [i \in 1..Len(NameSeq) |-> [k |-> "dflt", from |-> NameSeq[i]]]
 NameOrNone == <<"-">> \o NameSeq
 Callable(g) == SelectSeq([c \in 1..Len(g.prog) |-> c], LAMBDA c : g.prog[c].parent = Cur(g) /\ g.prog[c].kind \in {"def", "lambda"})
-NewScope(g, kind, par, iter, tgt) == [kind |-> kind, parent |-> Cur(g), par |-> par, iter |-> iter, tgt |-> tgt, ev |-> <<>>]
+NewScope(g, kind, par, iter, tgt) == [kind |-> kind, parent |-> Cur(g), par |-> TLCEval(par), iter |-> iter, tgt |-> tgt, ev |-> <<>>]
 
 \* ---- steps
 AddEv(g, e) == [g EXCEPT !.prog[Cur(g)].ev = Append(@, e)]
